@@ -42,6 +42,11 @@ func (r *RuleResult) ok(sample string) {
 
 func (r *RuleResult) fail(construct, where, detail string) {
 	r.Obligations++
+	for _, f := range r.Findings {
+		if f.Construct == construct {
+			return
+		}
+	}
 	r.Findings = append(r.Findings, Finding{Rule: r.Rule, Construct: construct, Where: where, Detail: detail})
 }
 
